@@ -31,7 +31,7 @@ def _mk():
 def h_buffers(env):
     p = env.params
     n = p["n"]
-    ops = [env.choice("op%d" % i, p.get("ops", OPS)) for i in range(n)]
+    ops = list(p.get("prefix", [])) + [env.choice("op%d" % i, p.get("ops", OPS)) for i in range(n)]
     comp, Message = _mk()
     outbox = []       # what left the computation for other computations, in order
     queue = []        # the hosting agent's queue: (priority, seq, src, msg)
@@ -149,7 +149,10 @@ Contract(
      "pydcop.infrastructure.computations:MessagePassingComputation.on_message", "pydcop.infrastructure.computations:MessagePassingComputation.post_msg"],
     h_buffers,
     lambda tier: [dict(n=4), dict(n=5, ops=["recvA", "recvB", "post", "start", "pause", "resume"]), dict(n=5, ops=["recvA", "queueA", "start", "pause", "resume"]),
-                  dict(n=6, ops=["queueA", "step", "start_nodrain", "pause", "resume_nodrain"])]
+                  dict(n=6, ops=["queueA", "step", "start_nodrain", "pause", "resume_nodrain"]),
+                  # posts and receptions held in the same pause, a newer message already queued at the resume
+                  dict(n=5, prefix=["start"], ops=["recvA", "queueA", "post", "pause", "resume"]),
+                  dict(n=5, prefix=["start", "pause"], ops=["recvA", "recvB", "queueA", "post", "resume_nodrain", "step"])]
     + ([dict(n=6), dict(n=7, ops=["recvA", "recvB", "post", "pause", "resume", "start"]), dict(n=7, ops=["recvA", "queueA", "start", "pause", "resume"])] if tier == "thorough" else []),
     mode="E", must_cover=["post"],
     trusted=["agent queue emulated as (priority, FIFO) - the guarantee of C18"],
